@@ -45,6 +45,8 @@ CONFIGS_ALL = [('cga', 1), ('cga', 2), ('ega', 1), ('ega', 2), ('ega', 7), ('ega
                ('tandy', 1), ('tandy', 2), ('tandy', 3), ('tandy', 4), ('tandy', 5), ('tandy', 6),
                ('pcjr', 1), ('pcjr', 2), ('pcjr', 3), ('pcjr', 4), ('pcjr', 5), ('pcjr', 6),
                ('hercules', 3), ('olivetti', 3), ('ega_mono', 10)]
+# one configuration per sprite format that CONFIGS_QUICK lacks (packed 2bpp interlaced Tandy 4, EGA 2 planes, ...)
+SPRITE_EXTRA_QUICK = [('hercules', 3), ('olivetti', 3), ('ega_mono', 10), ('tandy', 4)]
 TEXT_CONFIGS = [('cga', 0), ('ega', 0), ('vga', 0), ('tandy', 0), ('pcjr', 0)]
 
 NONZERO = re.compile(b'[^\\x00]+')
@@ -390,6 +392,13 @@ def judge(ctx, r, e, res, where):
     viewport and active page *before* the statement; updated here from the statement issued."""
     kind = e.get('kind', 'gfx')
     case = dict(where, text=e['text'])
+    if e.get('put_fit') is False:
+        # a PUT whose sprite does not lie completely in the viewport: Illegal function call, nothing changes
+        if 'exc' in res or res['err'] != 5 or res['changed']:
+            got = res['exc'] if 'exc' in res else 'error %r, %d pages changed' % (res['err'], len(res['changed']))
+            ctx.fail('put-not-fitting:%s' % (e['text'].split(',')[-1] if e['text'].count(',') > 2 else 'default'), case,
+                     'the %dx%d sprite at %r does not fit in the viewport %r: expected Illegal function call and no change, got %s'
+                     % (e['sprite'][0], e['sprite'][1], e['at'], r.rect, got))
     if 'exc' in res:
         # a host exception escaping Session.execute is C01's subject; here it matters when it breaks the page switch
         ctx.count('host-exception')
@@ -975,6 +984,112 @@ def failing_part(ctx, r, n_fail):
     return results
 
 
+# ---------------------------------------------------------------------------------------------------------
+# GET / PUT at the edges of the viewport, every PUT verb
+
+PUT_VERBS = ['PSET', 'PRESET', 'AND', 'OR', 'XOR', '']
+
+
+def sprite_setup(r, sizes):
+    W, H = r.W, r.H
+    lines = ['VIEW: WINDOW: SCREEN ,,0,0: DIM S%(600): DIM T%(600)',
+             'LINE (0,0)-(%d,%d),1,BF' % (W - 1, H - 1)]
+    for name, (w, h) in zip(['S%', 'T%'], sizes):
+        lines.append('GET (0,0)-(%d,%d),%s' % (w - 1, h - 1, name))
+    lines.append('LINE (0,0)-(%d,%d),0,BF' % (W - 1, H - 1))
+    return lines
+
+
+def sprite_part(ctx, r, full):
+    """Sprites fetched with GET are PUT with every verb at positions straddling each edge of the viewport by
+    0, 1, half the sprite and all but one pixel.  The real size of a sprite is measured from an unambiguous PUT in the
+    middle of the unset viewport (it is what PUT writes, e.g. twice the fetched width in Tandy SCREEN 6)."""
+    W, H = r.W, r.H
+    sizes = [(8, 6), (3, 2)]
+    names = ['S%', 'T%']
+    # 1. measure
+    measure = [{'text': 'SCREEN ,,0,0', 'kind': 'page', 'apage': 0}, {'text': 'VIEW', 'kind': 'view', 'rect': None}]
+    for name in names:
+        measure.append({'text': 'PUT (%d,%d),%s,PSET' % (W // 4, H // 4, name), 'kind': 'gfx', 'prep': True})
+    where = {'video': r.video, 'mode': r.mode, 'part': 'sprite', 'full': full}
+    results = r.run(measure, setup=sprite_setup(r, sizes))
+    real = []
+    for k, (e, res) in enumerate(zip(measure, results)):
+        judge(ctx, r, e, res, dict(where, index=k, stage='measure'))
+        if k >= 2:
+            runs = [run for runs in res.get('changed', {}).values() for run in runs] if 'exc' not in res else []
+            if not runs:
+                real.append(None)
+            else:
+                real.append((max(b for _, a, b in runs) - min(a for _, a, b in runs) + 1,
+                             max(y for y, _, _ in runs) - min(y for y, _, _ in runs) + 1))
+    if r.broken or len(real) != 2 or None in real:
+        ctx.count('sprite:not-measured')
+        return
+    for (w, h), (sw, sh) in zip(sizes, real):
+        ctx.count('sprite:%dx%d-fetched-is-%dx%d' % (w, h, sw, sh))
+    # 2. viewports
+    sw, sh = real[0]
+    views = [((W // 4, H // 4, min(W - 3, W // 4 + max(3 * sw, 20)), min(H - 3, H // 4 + max(3 * sh, 12))), False),
+             ((W // 2, H // 2, W - 3, H - 2), True)]
+    if full:
+        views += [(None, False), ((1, 1, W - 2, H - 2), False), ((5, 5, 5 + sw - 2, 5 + sh), True),
+                  ((0, 0, W // 3, H // 3), True), ((W // 3, 0, W - 1, H - 1), False)]
+    for vi, (rect, absolute) in enumerate(views):
+        if r.broken:
+            return
+        vr = rect if rect is not None else (0, 0, W - 1, H - 1)
+        ox, oy = (0, 0) if (absolute or rect is None) else (vr[0], vr[1])
+        apage = vi % min(r.num_pages, 3)
+        entries = [{'text': 'SCREEN ,,%d,0' % apage, 'kind': 'page', 'apage': apage}, setup_view_entry(rect, absolute)]
+        puts = []
+        n = 0
+        for si, (name, (w, h), (sw, sh)) in enumerate(zip(names, sizes, real)):
+            if si > 0 and vi > 0 and not full:
+                continue    # quick tier: the small sprite only in the first viewport
+            inx, iny = vr[0] + 1, vr[1] + 1
+            spots = []
+            for d in sorted(set([0, 1, max(1, sw // 2), sw - 1, w])):
+                spots.append((vr[0] - d, iny))                  # over the left edge by d
+                spots.append((vr[2] - sw + 1 + d, iny))         # over the right edge by d
+            for d in sorted(set([0, 1, max(1, sh // 2), sh - 1])):
+                spots.append((inx, vr[1] - d))                  # over the top edge by d
+                spots.append((inx, vr[3] - sh + 1 + d))         # over the bottom edge by d
+            spots.append((vr[2] - sw + 2, vr[3] - sh + 2))      # over the corner by one
+            spots.append((vr[2] - sw + 1, vr[3] - sh + 1))      # exactly in the corner
+            for (ax, ay) in spots:
+                fit = vr[0] <= ax and ax + sw - 1 <= vr[2] and vr[1] <= ay and ay + sh - 1 <= vr[3]
+                verbs = PUT_VERBS if full else ['PSET', PUT_VERBS[1 + n % 5]]
+                n += 1
+                for verb in verbs:
+                    x, y = ax - ox, ay - oy
+                    e = {'text': 'PUT (%d,%d),%s%s' % (x, y, name, ',' + verb if verb else ''), 'kind': 'gfx', 'prep': True,
+                         'put_fit': bool(fit), 'sprite': [sw, sh], 'at': [ax, ay], 'verb': verb}
+                    if verb in ('PSET', 'OR', 'XOR', ''):
+                        # on a zeroed page a sprite of attribute 1 changes exactly the cells it is written to
+                        e['model'] = '%s put %d %d %d %d' % (model_prefix(r), x, y, sw, sh)
+                    puts.append(e)
+        # PSET / PRESET first: with the other verbs a sprite that is let through may raise a host exception
+        puts.sort(key=lambda e: 0 if e['verb'] in ('PSET', 'PRESET') else 1)
+        entries += puts
+        results = r.run(entries, setup=sprite_setup(r, sizes))
+        cases, outs, lines = [], [], []
+        for k, (e, res) in enumerate(zip(entries, results)):
+            before = model_prefix(r)
+            judge(ctx, r, e, res, dict(where, index=k, view=vi))
+            ctx.case((r.video, r.mode, 'sprite', vi, e['text']))
+            if 'put_fit' in e:
+                ctx.count('put:%s:%s' % (e['verb'] or 'default', 'fits' if e['put_fit'] else 'sticks-out'))
+            if 'exc' in res:
+                break
+            if e.get('model'):
+                lines.append(before + ' ' + e['model'].split(' ', 8)[-1])
+                outs.append(impl_string(res))
+                cases.append({'video': r.video, 'mode': r.mode, 'text': e['text']})
+        if lines:
+            ctx.compare(cases, outs, lines, label='sprite')
+
+
 def start_state(r):
     return {'rect': list(r.rect), 'abs': r.absolute, 'apage': r.apage, 'window': r.window}
 
@@ -1054,6 +1169,9 @@ def config_part(ctx, video, mode, n_exact, n_direct, n_hist, hist_len, n_paint, 
             return
         # rejected statements between a successful VIEW and later drawing
         failing_part(ctx, r, n_fail)
+        if r.broken:
+            return
+        sprite_part(ctx, r, full=not ctx.quick)
         if r.broken:
             return
         # statement histories, oracle only
@@ -1248,6 +1366,16 @@ def run(ctx):
         else:
             config_part(ctx, video, mode, n_exact=150, n_direct=300, n_hist=10, hist_len=60, n_paint=25, n_fail=200)
         ctx.log('%s SCREEN %d done' % (video, mode))
+    if quick:
+        # the sprite formats of the configurations the quick tier does not otherwise visit
+        for video, mode in [c for c in CONFIGS_ALL if c not in CONFIGS_QUICK]:
+            if (video, mode) in SPRITE_EXTRA_QUICK:
+                r = Runner(video, mode)
+                try:
+                    ctx.count('config-sprites-only:%s/%d' % (video, mode))
+                    sprite_part(ctx, r, full=False)
+                finally:
+                    r.close()
     for video in ['ega', 'vga', 'tandy', 'pcjr', 'cga']:
         if quick:
             mode_part(ctx, video, n_hist=2, n_segments=5, seg_len=6, n_paint=1)
@@ -1289,6 +1417,12 @@ def replay(ctx, payload):
                 sub.fail('direct-exception:' + op, case, 'primitive raised %s' % type(e).__name__)
             changed = r.sync(record=True)
             judge(sub, r, {'text': 'direct ' + ' '.join(toks[8:]), 'kind': 'gfx'}, {'err': None, 'changed': changed}, case)
+        finally:
+            r.close()
+    elif case.get('part') == 'sprite':
+        r = Runner(case['video'], case['mode'])
+        try:
+            sprite_part(sub, r, full=bool(case.get('full')))
         finally:
             r.close()
     elif case.get('modes'):
